@@ -202,6 +202,60 @@ def ob_align(kind, timeout):
     return Ob("align-%s-ref2" % kind, F(*names), body, pre, fmode="real", timeout=timeout, funcs=FUNCS[:3], bounds="textgrid: %s tier(s) with 1 entry + point reference tier with 2 timestamps" % kind)
 
 
+def ob_align_tiny_jitter(timeout):
+    """no separation assumed: a timestamp that differs from the reference by however little
+    (float noise included) is moved onto it, exactly - the result is compared as plain numbers,
+    not with the library's tolerant ==; clearly-inside and clearly-outside cases only
+    (|t-r| <= D/2 or |t-r| >= 2D), so the tolerant <= at the edge plays no role"""
+    names = ["D", "hi", "r0", "p0", "s0", "e0"]
+
+    def pre(D, hi, r0, p0, s0, e0):
+        return within(0.0, hi, r0, p0) & ivs_wf_pre(0.0, hi, s0, e0) & (hi <= 512.0) & (D > 0) & (D <= 512.0) & ((e0 - s0) >= 4 * D)
+
+    def near(t, r, D):
+        d = t - r if t >= r else r - t
+        return 1 if 2 * d <= D else (0 if d >= 2 * D else None)
+
+    def body(D, hi, r0, p0, s0, e0):
+        tg = Textgrid(0.0, hi)
+        tg.addTier(PointTier("p", [Point(p0, "q")], 0.0, hi))
+        tg.addTier(PointTier("ref", [Point(r0, "m")], 0.0, hi))
+        tg.addTier(IntervalTier("i", [Interval(s0, e0, "x")], 0.0, hi))
+        r = praatio_scripts.alignBoundariesAcrossTiers(tg, "ref", D)
+        got = [r.getTier("p").entries[0][0], r.getTier("i").entries[0][0], r.getTier("i").entries[0][1]]
+        for t, g in zip((p0, s0, e0), got):
+            n = near(t, r0, D)
+            if n == 1 and g != r0:
+                return "a timestamp within maxDifference/2 of the reference was not moved onto it"
+            if n == 0 and g != t:
+                return "a timestamp further than 2 maxDifference from the reference was moved"
+        return True
+
+    return Ob("align-tiny-jitter", F(*names), body, pre, fmode="real", timeout=timeout, funcs=FUNCS[:3], bounds="point tier, interval tier (length >= 4 maxDifference) and a one-point reference; no separation assumption (jitter may be arbitrarily small)")
+
+
+def ob_dejitter_point_edge_ieee(timeout):
+    """binary64: a point whose distance to the reference, as the subtraction computes it, is at
+    most maxDifference is moved (the documented inclusive bound), however the two sums
+    t + maxDifference / t - maxDifference happen to round"""
+
+    def pre(D, hi, t, r):
+        return finite(D, hi, t, r) & (0.0 <= t) & (t <= hi) & (0.0 <= r) & (r <= hi) & (hi <= 1048576.0) & (D > 0) & (D <= 1048576.0)
+
+    def body(D, hi, t, r):
+        tier = PointTier("p", [Point(t, "q")], 0.0, hi)
+        ref = PointTier("ref", [Point(r, "m")], 0.0, hi)
+        g = tier.dejitter(ref, D).entries[0][0]
+        d = t - r if t >= r else r - t
+        if d <= D and g != r:
+            return "a point at most maxDifference from the reference was not moved"
+        if d > 2 * D and g != t:
+            return "a point further than 2 maxDifference from the reference was moved"
+        return True
+
+    return Ob("dejitter-point-edge-ieee", F("D", "hi", "t", "r"), body, pre, fmode="ieee", timeout=timeout, funcs=[FUNCS[1]], bounds="one point, one reference point, all binary64 values in [0, 2^20]")
+
+
 def ob_morph(k, filt, labels, timeout):
     names = ["lo", "hi"] + _ts(k) + _ts(k, "t")
 
@@ -296,6 +350,7 @@ def obligations(tier):
         obs.append(ob_dejitter_interval(1, 2, "interval", 400))
         obs.append(ob_dejitter_point(2, 2, 300))
         obs.append(ob_dejitter_point(2, 1, 300, labels=["y", "x"], tag="-labels-desc", known="KF-C14-simultaneous-points-reordered"))
+        obs.append(ob_align_tiny_jitter(300))
         obs.append(ob_align("interval", 400))
         obs.append(ob_align("point", 400))
         for f in ("none", "by-label"):
@@ -313,6 +368,8 @@ def obligations(tier):
         for k, n in ((1, 1), (2, 2), (3, 2), (2, 3)):
             obs.append(ob_dejitter_point(k, n, 1200))
         obs.append(ob_dejitter_point(2, 2, 1200, labels=["y", "x"], tag="-labels-desc", known="KF-C14-simultaneous-points-reordered"))
+        obs.append(ob_align_tiny_jitter(1200))
+        obs.append(ob_dejitter_point_edge_ieee(1800))
         for kd in ("interval", "point", "both"):
             obs.append(ob_align(kd, 3000))
         for f in ("none", "all", "nothing", "by-label"):
@@ -321,4 +378,7 @@ def obligations(tier):
         obs.append(ob_morph(2, "none", ["x", ""], 600))
         obs.append(ob_morph(3, "all", ["", "y", ""], 600))
         obs.append(ob_morph_mismatch(30))
+    from harness import fp_kernels
+
+    obs += fp_kernels.c14_obligations(tier)
     return obs
